@@ -21,10 +21,12 @@ const (
 	FaultDup                // Store only: report (false, nil) without writing
 	FaultAfter              // Store only: write, then report an error
 	FaultDupError           // Store only: report (false, err) without writing
+	FaultSlow               // the call succeeds, but time passes while it runs (CallLog.OnSlow advances the clock)
+	FaultCancel             // the call succeeds, but the caller's context is cancelled while it runs (CallLog.OnCancel)
 )
 
 func (k FaultKind) String() string {
-	return [...]string{"none", "error", "false-duplicate", "error-after-write", "false+error"}[k]
+	return [...]string{"none", "error", "false-duplicate", "error-after-write", "false+error", "slow", "ctx-cancelled"}[k]
 }
 
 // Call is one entry of the external-call log shared by the spy store and KMS.
@@ -57,6 +59,9 @@ type CallLog struct {
 	// Plan decides the fault for the call about to be made (nil = none). It is
 	// given the index the call will have in Calls.
 	Plan func(idx int, c *Call) FaultKind
+	// OnSlow / OnCancel implement the two non-failing "faults".
+	OnSlow   func()
+	OnCancel func()
 }
 
 func (l *CallLog) begin(c Call) (int, FaultKind) {
@@ -68,7 +73,20 @@ func (l *CallLog) begin(c Call) (int, FaultKind) {
 		c.Fault = l.Plan(c.Seq, &c)
 	}
 	l.Calls = append(l.Calls, c)
-	return c.Seq, c.Fault
+	f := c.Fault
+	switch f {
+	case FaultSlow:
+		if l.OnSlow != nil {
+			l.OnSlow()
+		}
+		f = NoFault
+	case FaultCancel:
+		if l.OnCancel != nil {
+			l.OnCancel()
+		}
+		f = NoFault
+	}
+	return c.Seq, f
 }
 
 func (l *CallLog) end(idx int, ok bool, found int64, err error) {
